@@ -266,6 +266,10 @@ def serialize_samesite(v):
     if SAMESITE_VALIDATION:
         if v.lower() not in (b"strict", b"lax", b"none"):
             raise ValueError("SameSite must be 'strict', 'lax', or 'none'")
+    elif v.translate(None, _valid_token_bytes):
+        # whatever a future RFC allows, the value is copied into the header as
+        # it stands, so it must not be able to end the attribute
+        raise ValueError("SameSite must be a token")
 
     return v
 
